@@ -19,6 +19,8 @@ fn main() {
     std::panic::set_hook(Box::new(|_| {}));
     let f = std::fs::File::open(&args[1]).expect("open input");
     let out_dir = std::path::PathBuf::from(&args[2]);
+    // --all: write the actual trace of every behaviour to sample.ndjson (for full trace validation)
+    let sample_max: u64 = if args.iter().any(|a| a == "--all") { u64::MAX } else { 20 };
     std::fs::create_dir_all(&out_dir).unwrap();
     let mut diverged = std::fs::File::create(out_dir.join("diverged.ndjson")).unwrap();
     let mut sample = std::fs::File::create(out_dir.join("sample.ndjson")).unwrap();
@@ -72,7 +74,7 @@ fn main() {
                 } else {
                     ok += 1;
                 }
-                if n <= 20 {
+                if n <= sample_max {
                     writeln!(sample, "{}", json!({"k": "reset", "id": idx})).unwrap();
                     for l in &r.actual {
                         writeln!(sample, "{}", l).unwrap();
